@@ -140,3 +140,33 @@ func c03BoundMerge(r *lp.Run, rng *lp.Rand) {
 		one(p(), rng.Bool(), p(), rng.Bool(), p(), rng.Bool(), p(), rng.Bool())
 	}
 }
+
+// the allOf merge of count keywords against the Lean model (driver tag cmerge)
+func c03CountMerge(r *lp.Run, rng *lp.Rand) {
+	vals := []int64{-1, 0, 1, 2, 5, 1 << 40}
+	show := func(v int64) string {
+		if v < 0 {
+			return "-"
+		}
+		return fmt.Sprint(v)
+	}
+	for _, kind := range []string{"length", "items", "properties"} {
+		for _, a := range vals {
+			for _, b := range vals {
+				for _, c := range vals {
+					for _, d := range vals {
+						out := lp.Guard(func() string {
+							mn, mx, err := gen.VerifMergeCounts(kind, a, b, c, d)
+							if err != nil {
+								return "err"
+							}
+							return show(mn) + " " + show(mx)
+						})
+						r.Case("cmerge", strings.Join([]string{show(a), show(b), show(c), show(d)}, " "), out, "cmerge:"+kind, a >= 0 && c >= 0 || b >= 0 && d >= 0)
+					}
+				}
+			}
+		}
+	}
+	r.Exhaustive("allOf count merge", map[string]any{"kinds": 3, "grid": "6^4 per kind"})
+}
